@@ -22,6 +22,8 @@ enum {
   QF_WORD32MAX,    // every word 2^32 - 1
   QF_MIXEDWIDTH,   // per element: all four words below 2^16, below 2^32, below 2^48 or full width
   QF_HIGH32,       // every word a multiple of 2^32 (low half zero, high half random): what k<<32 looks like
+  QF_POW2,         // every word of the vector the same power of two (sums of partial products that are exactly a power of two)
+  QF_SPARSE,       // mostly zero: a single maximal element at the last / a random position, a zero first half, zero blocks of 1024 elements
   QF_LANESPLIT,    // the four lanes (primes) of every element have different widths: one lane below 2^32 in EVERY element, the others wide
   QF_N
 };
